@@ -69,7 +69,12 @@ fn out_of(v: &Value) -> Out {
 }
 /// texts by which the platform reports that the worker's address-space limit was reached
 fn memory_exhausted(text: &str) -> bool {
-	text.contains("memory allocation of") || text.contains("out of memory") || text.contains("mmap failed to allocate stack") || text.contains("Cannot allocate memory")
+	text.contains("memory allocation of")
+		|| text.contains("out of memory")
+		|| text.contains("mmap failed to allocate stack")
+		|| text.contains("Cannot allocate memory")
+		// the interner checks the result of its own allocation with an assertion
+		|| (text.contains("!data.is_null()") && text.contains("jrsonnet-interner"))
 }
 fn reply_out(r: Reply) -> (Out, Option<String>, Value) {
 	match r {
@@ -607,6 +612,12 @@ const HISTORY_ITEMS: &[(&str, usize, &str)] = &[
 	("std.parseJson('{')", 200, "error"),
 	("'%d' % 'x'", 200, "error"),
 	("std.manifestIni(1)", 200, "error"),
+	// recursion just below the frame limit: must keep working however many earlier evaluations hit the limit
+	("local f(n) = if n == 0 then 0 else 1 + f(n - 1); f(185)", 200, "near-limit"),
+	("local f(n) = if n == 0 then 0 else 1 + f(n - 1); f(192)", 200, "near-limit"),
+	("local f(n) = if n == 0 then 0 else 1 + f(n - 1); f(195)", 200, "near-limit"),
+	("local f(n) = if n == 0 then 0 else 1 + f(n - 1); f(197)", 200, "near-limit"),
+	("local f(n) = if n == 0 then 0 else 1 + f(n - 1); f(45)", 50, "near-limit"),
 	("1 +", 200, "syntax"),
 	("{ a: 1 } { b: }", 200, "syntax"),
 ];
@@ -648,7 +659,8 @@ fn history_case(src: &mut Src) -> CaseOut {
 				problems.push(format!("item {i} `{}` behaves differently after the preceding evaluations on the same thread:\n    inside the history: {}\n    alone on a new thread: {}", items[i].0, oa.short(), ob.short()));
 			}
 			let want_value = items[i].2 == "value";
-			if want_value != matches!(ob, Out::Val(_)) {
+			// (whether a recursion that close to the limit fits is not pinned down; it must only not depend on history)
+			if items[i].2 != "near-limit" && want_value != matches!(ob, Out::Val(_)) {
 				problems.push(format!("item {i} `{}` alone gives {} (expected {})", items[i].0, ob.short(), if want_value { "a value" } else { "an error" }));
 			}
 		}
